@@ -206,7 +206,14 @@ class SimOS:
 
     def write(self, fd, data):
         p = self._fdpath(fd)
-        return _seam("write", p, lambda: _os.write(fd, data), {"fd": fd, "n": len(data)})
+        def short(d):
+            # short write (ENOSPC / EDQUOT / RLIMIT_FSIZE reached mid-write, or a signal): the kernel accepts a PREFIX and
+            # reports its length; POSIX callers must loop
+            k = int(len(data) * d.get("frac", 0.5))
+            k = max(0, min(k, len(data) - 1))
+            cur_sim().probe("short_write")
+            return _os.write(fd, bytes(data[:k])) if k else 0
+        return _seam("write", p, lambda: _os.write(fd, data), {"fd": fd, "n": len(data)}, value_fault=short)
 
     def read(self, fd, n):
         p = self._fdpath(fd)
